@@ -30,6 +30,12 @@ CHECKS = {
  "C18": dict(level="exploration", engine="SIM", technique="model-based property testing of the Cleaner on generated graphs, tree states and scopes, oracle = reference scope computation (both directions)",
              text="After a generated history the tree is perturbed and one clean scope (all, -g, targets, rules, cleandead after statements were removed; each also with -n) runs through the real Cleaner on the virtual disk with the real logs; removed files must equal the existing files of the scope, and the following build must reproduce the clean tree.",
              ref="4/C18", note=SIM_NOTE),
+ "C19": dict(level="exploration", engine="E2E", technique="property testing of the real binary's tools: snapshot-equality and model-agreement oracles on generated graphs/states/tools, strict JSON recogniser with byte-exact round trip for compdb",
+             text="Each generated (graph, history, tree state, tool, target subset) runs one of 14 read-only tool invocations of the real binary: no command may execute, every file (content+mtime) and both logs' meaning must be unchanged, -n/-t commands listings must match the reference model in dependency order, and the real build that follows is judged by the C01/C03 oracles. compdb output with commands over every byte value must pass a strict RFC 8259 recogniser and round-trip.",
+             ref="4/C19", note="Trusted base: verif/e2e.py, vtool, the reference models, the JSON recogniser in verif/props/C19.py."),
+ "C20": dict(level="exploration", engine="E2E+SIM", technique="transcript-grammar oracle over the real binary's piped stdout for generated graphs/outputs/-j/failures/formats, plus counter invariants on the raw Status call sequence in the SIM",
+             text="Commands print generated byte strings (tags, NUL, high bytes, CSI and non-CSI escapes, with/without final newline) in several chunks; a transcript parser accepts only status line, FAILED header + command line, the command's bytes as one contiguous block and one separating newline, and checks the progress counters; the SIM checks started/finished/total on every build of generated histories.",
+             ref="4/C20", note="Trusted base: the transcript parser in verif/props/C20.py, vtool. Two genuine defects found here were repaired (fix: 827f6bd, 37dc2d7). Smart-terminal (pty) rendering is not covered."),
  "C10": dict(level="exploration", engine="SIM", technique="metamorphic testing: discovered dependencies vs the same dependencies declared as implicit inputs, same generated history on both",
              text="Each generated history runs twice in lockstep: on the graph whose commands report hidden reads through depfile/deps=gcc/deps=msvc (sources and generated files, canonical and -Iinc/.. style spellings) and on the variant with those reads written as implicit inputs; result, commands run and contents must agree per invocation. Differences that the counterfactual model attributes to known finding D1 are listed, not hidden.",
              ref="4/C10", note=SIM_NOTE),
@@ -58,9 +64,10 @@ CHECKS = {
 ENGINES = [
  dict(name="SIM", path="cxx/probe_sim.h + verif/simrun.py", serves_properties=["C01", "C02", "C03", "C04", "C05", "C06", "C07", "C10", "C11", "C17", "C18"],
       kind_free_text="in-process build simulator: virtual disk with logical clock, scripted command runner owning the schedule, real log files; forked per request by the probe server"),
- dict(name="E2E", path="verif/e2e.py, cxx/vtool.c", serves_properties=["C01", "C02", "C03", "C05", "C06", "C07"],
+ dict(name="E2E", path="verif/e2e.py, cxx/vtool.c", serves_properties=["C01", "C02", "C03", "C05", "C06", "C07", "C19", "C20"],
       kind_free_text="the real ninja binary (built from the working tree, hooks compiled in but inert) in a scratch directory, commands are the vtool helper with the SIM's content function; jobserver fifo, signals, crash points via environment"),
  dict(name="SIM+E2E", path="verif/props/C07.py", serves_properties=["C07"], kind_free_text="both engines"),
+ dict(name="E2E+SIM", path="verif/props/C20.py", serves_properties=["C20"], kind_free_text="both engines"),
  dict(name="LOG", path="cxx/probe_misc.h (buildlog/depslog op interpreters) + verif/props/C08.py, C09.py", serves_properties=["C08", "C09"],
       kind_free_text="real BuildLog/DepsLog objects on real files driven by generated op lists inside the forked probe; files are cut from outside at every offset"),
  dict(name="manifest-diff", path="verif/mref.py, verif/props/C12.py, cxx/probe_misc.h (manifest)", serves_properties=["C12"], kind_free_text="reference evaluator vs ManifestParser graph dump"),
